@@ -2,7 +2,7 @@
 forwarding wrappers."""
 import itertools
 
-from .core import (AnchorMissing, ShapeUnrecognised, CallSite, SwitchInfo, strip, walk, show, calls_in,
+from .core import (AnchorMissing, ShapeUnrecognised, CallSite, SwitchInfo, strip, deep_strip, walk, show, calls_in,
                    cmp_nf, _match, TRANSPARENT_CALLS)
 
 RESULT = "core::result::Result"
@@ -241,6 +241,92 @@ def eval_bool(e, env):
     if e in env:
         return {env[e]}
     return {True, False}
+
+
+def _b_and(a, b):
+    F, T = ("const", "bool", False), ("const", "bool", True)
+    if a == F or b == F:
+        return F
+    if a == T:
+        return b
+    if b == T:
+        return a
+    return ("bin", "BitAnd", a, b)
+
+
+def _b_or(a, b):
+    F, T = ("const", "bool", False), ("const", "bool", True)
+    if a == T or b == T:
+        return T
+    if a == F:
+        return b
+    if b == F:
+        return a
+    if a == b:
+        return a
+    return ("bin", "BitOr", a, b)
+
+
+def _b_not(a):
+    if a[0] == "const" and a[1] == "bool":
+        return ("const", "bool", not a[2])
+    if a[0] == "un" and a[1] == "Not":
+        return a[2]
+    return ("un", "Not", a)
+
+
+def bool_value(fn, op, depth=5):
+    """Boolean expression of an operand with short-circuit joins made explicit: a local assigned on several edges
+    (`a && b`, `a || b`, `if c { x } else { y }`) becomes OR over its definitions of (distinguishing branch conditions
+    AND the value assigned there), instead of an unordered join.  Atoms are deep-stripped recovered expressions."""
+    c = op.get("const") if isinstance(op, dict) else None
+    if c is not None:
+        return ("const", "bool", bool(c.get("value"))) if c.get("kind") == "bool" else deep_strip(fn.expr(op))
+    pl = op.get("copy") or op.get("move")
+    if pl is None or pl["p"] or depth <= 0 or 1 <= pl["l"] <= fn.nargs:
+        return deep_strip(fn.expr(op))
+    l = pl["l"]
+    ds = [d for d in fn.defs(l)]
+    if not ds or any(d[0] for d in ds) or any(d[3] != "rv" for d in ds):
+        return deep_strip(fn.expr(op))
+
+    def of_rv(rv):
+        if rv["k"] == "use":
+            return bool_value(fn, rv["a"], depth - 1)
+        if rv["k"] == "un" and rv.get("op") == "Not":
+            return _b_not(bool_value(fn, rv["a"], depth - 1))
+        if rv["k"] == "bin" and rv.get("op") in ("BitAnd", "BitOr") and rv.get("ty") == "bool":
+            a, b = bool_value(fn, rv["a"], depth - 1), bool_value(fn, rv["b"], depth - 1)
+            return _b_and(a, b) if rv["op"] == "BitAnd" else _b_or(a, b)
+        return None
+    if len(ds) == 1:
+        v = of_rv(ds[0][4])
+        return v if v is not None else deep_strip(fn.expr(op))
+    terms = []
+    condsets = []
+    for d in ds:
+        cs = []
+        for sb, si, al in fn.conditions(d[1]):
+            labs = {si.label(v) for v, _ in al}
+            if si.is_bool and labs in ({True}, {False}):
+                cs.append((sb, True in labs))
+        condsets.append(cs)
+    common = set(condsets[0])
+    for cs in condsets[1:]:
+        common &= set(cs)
+    out = ("const", "bool", False)
+    for d, cs in zip(ds, condsets):
+        v = of_rv(d[4])
+        if v is None:
+            return deep_strip(fn.expr(op))
+        term = v
+        for sb, truth in cs:
+            if (sb, truth) in common:
+                continue
+            g = bool_value(fn, fn.term(sb)["discr"], depth - 1)
+            term = _b_and(g if truth else _b_not(g), term)
+        out = _b_or(out, term)
+    return out
 
 
 def eval_bool_joint(exprs, env, limit=256):
